@@ -2019,7 +2019,10 @@ Proof.
   unfold m_writeimage.
   assert (Ea : args_ok r = true).
   { unfold args_ok. repeat (apply andb_true_intro; split); apply Nat.leb_le; auto. }
-  rewrite Ea. cbn [negb]. eexists. eexists. split; [reflexivity|].
+  rewrite Ea. cbn [negb orb].
+  assert (Erf : comp_write_refused m r = false).
+  { unfold comp_write_refused. destruct (m_store m); auto. destruct (m_elt m); reflexivity. }
+  rewrite Erf. eexists. eexists. split; [reflexivity|].
   set (g := m_g m) in *. set (user := group (gcs g) (r_cx r * r_cy r * gnc g) bytes).
   set (d0 := repeat 0%Z (gcs g)).
   assert (Hu : length user = r_cx r * r_cy r * gnc g) by apply group_length.
@@ -2072,8 +2075,13 @@ Proof.
   - destruct Hd as (-> & Hl & Hp). eexists. f_equal. f_equal. f_equal. rewrite <- Hr.
     apply (image_read_refines_lemma (codec (gswap g)) (codec (gswap g)) (repeat 0%Z (gcs g))); auto.
   - eexists. f_equal. f_equal. f_equal. rewrite <- Hr, <- Hf.
+    change rd_nodata_caches_fill with false. cbv iota.
     apply read_nodata_refines_lemma; auto. apply fill_of_length; auto.
 Qed.
+
+(** a compressed image selected from a file is accessed through the buffered driver *)
+Lemma selected_comp_buffered_lemma : selected_comp_buffered = true.
+Proof. vm_compute. reflexivity. Qed.
 
 Lemma img_rel_create_lemma : forall g il, 1 <= gnc g -> img_rel (m_create g il) (s_create g il).
 Proof. intros g il H. unfold img_rel. simpl. repeat split; auto. intros p Hp. discriminate. Qed.
